@@ -62,6 +62,7 @@ ZeroOfTf(ty) ==
     [] ty = "string" -> ""
     [] ty = "time" -> ZeroTime
     [] ty = "duration" -> "0"
+    [] ty = "ovrint64" -> "0"
     [] OTHER -> ""
 
 ---------------------------------------------------------------------------
